@@ -265,7 +265,7 @@ func CompactJSON(input, output []byte) []byte {
 			// Skip over whitespace.
 			continue
 		}
-		if c == '-' && input[i] == '0' {
+		if c == '-' && isNegativeZeroLiteral(input, i) {
 			// Negative 0 is changed to '0', skip the '-'.
 			continue
 		}
@@ -301,6 +301,22 @@ func CompactJSON(input, output []byte) []byte {
 		}
 	}
 	return output
+}
+
+// isNegativeZeroLiteral reports whether the '-' at input[i-1] is the sign of the number
+// literal "-0": the next byte is '0', the number does not continue with a fraction or an
+// exponent, and the '-' is not itself the sign of an exponent.
+func isNegativeZeroLiteral(input []byte, i int) bool {
+	if i >= len(input) || input[i] != '0' {
+		return false
+	}
+	if i+1 < len(input) && (input[i+1] == '.' || input[i+1] == 'e' || input[i+1] == 'E') {
+		return false
+	}
+	if i >= 2 && (input[i-2] == 'e' || input[i-2] == 'E') {
+		return false
+	}
+	return true
 }
 
 // compactUnicodeEscape unpacks a 4 byte unicode escape starting at index.
